@@ -34,11 +34,15 @@ FAMILIES = {
 class LoginDev:
     """a causal login front end: asks for what the scenario says, then becomes a CLI at its prompt.
     kind 'telnet': "Username: " (echo) / "Password: " (hidden);  kind 'ssh': "user@h's password: " and/or
-    "Enter passphrase for key '/k': " (hidden).  A wrong answer re-asks; `fail` = permission denied text."""
+    "Enter passphrase for key '/k': " (hidden).  A wrong answer re-asks; `fail` = permission denied text.
+    `deny_text`: what the ssh client prints (own line) in front of the re-asked prompt when it rejects a password /
+    passphrase (OpenSSH: "Permission denied, please try again.") — message and next prompt are ONE answer of the
+    device, so the segmentation decides whether they arrive in one read.  `preamble`: client messages printed when
+    the session starts, in front of the first prompt (e.g. the unprotected-private-key warning)."""
 
     def __init__(self, kind, user="admin", password="pw1", passphrase="", motd=b"", prompt=b"router1#",
                  nl=b"\r\n", insertions=None, ask_passphrase=False, login_text=b"Username: ",
-                 deny_after=None):
+                 deny_after=None, deny_text=b"", preamble=b"", quiet=False):
         self.kind, self.user, self.password, self.passphrase = kind, user, password, passphrase
         self.motd, self.prompt_b, self.nl = motd, prompt, nl
         self.insertions = insertions or {}
@@ -49,6 +53,9 @@ class LoginDev:
         self.login_text = login_text
         self.ask_passphrase = ask_passphrase
         self.deny_after = deny_after
+        self.deny_text = deny_text
+        self.preamble = preamble
+        self.quiet = quiet               # ssh: no "Permanently added ... known hosts" line in front of the password prompt
         self.attempts = 0
         self.state = None
         self._skip_lf = False
@@ -61,7 +68,12 @@ class LoginDev:
             self.plain.append(c)
             self.out.append(c)
 
+    def _rejected(self):
+        return self.nl + (self.deny_text + self.nl if self.deny_text else b"")
+
     def start(self):
+        if self.preamble:
+            self._emit(self.preamble.replace(b"\n", self.nl))
         if self.kind == "telnet":
             self.state = "user"
             self._emit(self.nl + b"User Access Verification" + self.nl + self.nl + self.login_text)
@@ -70,7 +82,7 @@ class LoginDev:
             self._emit(b"Enter passphrase for key '/home/u/.ssh/id_rsa': ")
         else:
             self.state = "pass"
-            self._emit(b"Warning: Permanently added 'h' (ED25519) to the list of known hosts." + self.nl
+            self._emit((b"" if self.quiet else b"Warning: Permanently added 'h' (ED25519) to the list of known hosts." + self.nl)
                        + self.user.encode() + b"@h's password: ")
 
     def feed(self, data):
@@ -103,7 +115,7 @@ class LoginDev:
                 self._enter()
             else:
                 self.attempts += 1
-                self._emit(self.nl + b"Enter passphrase for key '/home/u/.ssh/id_rsa': ")
+                self._emit(self._rejected() + b"Enter passphrase for key '/home/u/.ssh/id_rsa': ")
         elif self.state == "pass":
             ok = raw.decode("latin-1") == self.password and (self.kind != "telnet" or self.typed_user.decode("latin-1") == self.user)
             if ok:
@@ -117,7 +129,7 @@ class LoginDev:
                     self.state = "user"
                     self._emit(self.nl + b"% Login invalid" + self.nl + self.nl + self.login_text)
                 else:
-                    self._emit(self.nl + self.user.encode() + b"@h's password: ")
+                    self._emit(self._rejected() + self.user.encode() + b"@h's password: ")
         elif self.state == "cli":
             self._emit(self.nl + self.prompt_b)
 
@@ -194,7 +206,8 @@ def make_device(dv):
                  passphrase=dv.get("passphrase", ""), motd=bytes.fromhex(dv.get("motd", "")),
                  prompt=dv.get("prompt", "router1#").encode(), insertions=ins,
                  ask_passphrase=dv.get("ask_passphrase", False),
-                 login_text=dv.get("login_text", "Username: ").encode(), deny_after=dv.get("deny_after"))
+                 login_text=dv.get("login_text", "Username: ").encode(), deny_after=dv.get("deny_after"),
+                 deny_text=dv.get("deny_text", "").encode(), preamble=dv.get("preamble", "").encode(), quiet=dv.get("quiet", False))
     return d
 
 
